@@ -82,6 +82,10 @@ type ltsRun struct {
 	g        *gate   // lets the peer stop reading what the client writes
 	pending  []byte  // rest of a frame of which the peer has sent only a part (pspart / psrest)
 	outLimit int // -1 = unlimited; otherwise the number of bytes the peer still reads before it vanishes
+	spinStop chan struct{} // "spin:n": n callers that keep calling SendNoWait with an already-cancelled context
+	spinWG   sync.WaitGroup
+	spinAcc  int64 // how many of those calls returned nil (guarded by mu)
+	spun     bool
 }
 
 func newLtsRun() *ltsRun {
@@ -355,6 +359,34 @@ func (r *ltsRun) play(ops []string) string {
 				}
 				return "nil"
 			})
+		case "spin":
+			// callers that are actively running (not parked) when the gate moves: SendNoWait with a cancelled context, over
+			// and over, until the script ends.  While the gate is closed every such call fails and writes nothing.
+			r.spun = true
+			if r.spinStop == nil {
+				r.spinStop = make(chan struct{})
+			}
+			expired, cancel := context.WithCancel(context.Background())
+			cancel()
+			for k := 0; k < atoi(p[1]); k++ {
+				r.spinWG.Add(1)
+				go func() {
+					defer r.spinWG.Done()
+					defer func() { recover() }()
+					for {
+						select {
+						case <-r.spinStop:
+							return
+						default:
+						}
+						if err := r.c.SendNoWait(expired, NewHdrOnlyMsg(MsgEnableEventsAndReports)); err == nil {
+							r.mu.Lock()
+							r.spinAcc++
+							r.mu.Unlock()
+						}
+					}
+				}()
+			}
 		case "cancel":
 			if lc := r.callers[atoi(p[1])]; lc != nil {
 				lc.cancel()
@@ -413,6 +445,11 @@ func (r *ltsRun) play(ops []string) string {
 	}
 	obs := ""
 	if early >= 0 {
+		if r.spinStop != nil {
+			close(r.spinStop)
+			r.spinWG.Wait()
+			r.spinStop = nil
+		}
 		r.cleanup()
 		return fmt.Sprintf("early-write@%d", early)
 	}
@@ -439,6 +476,11 @@ func (r *ltsRun) play(ops []string) string {
 		}
 	}
 	connRes := r.connRes
+	if r.spinStop != nil {
+		close(r.spinStop)
+		r.spinWG.Wait()
+		time.Sleep(2 * time.Millisecond) // a write that is in flight arrives
+	}
 	r.cleanup()
 	if stuck >= 0 {
 		return obs
@@ -449,7 +491,11 @@ func (r *ltsRun) play(ops []string) string {
 	for _, f := range r.frames {
 		wr = append(wr, fmt.Sprintf("%d:%d:%d", f.typ, f.id, ltsToken(f.typ, f.payload)))
 	}
-	return fmt.Sprintf("wr=[%s] res=[%s] conn=%s close=[%s]", strings.Join(wr, " "), strings.Join(res, " "), connRes, strings.Join(r.closes, " "))
+	out := fmt.Sprintf("wr=[%s] res=[%s] conn=%s close=[%s]", strings.Join(wr, " "), strings.Join(res, " "), connRes, strings.Join(r.closes, " "))
+	if r.spun {
+		out += fmt.Sprintf(" spin=%d", r.spinAcc)
+	}
+	return out
 }
 
 func connClass(err error) string {
